@@ -293,6 +293,40 @@ func spdxPurposes(c *Ctx, wr, rd []*declInfo) {
 			}
 		}
 	}
+	if len(rrows) == 0 {
+		// … or in a package-level map table indexed with the package's PrimaryPackagePurpose
+		for _, d := range rd {
+			ast.Inspect(d.fd.Body, func(n ast.Node) bool {
+				ix, ok := n.(*ast.IndexExpr)
+				if !ok {
+					return true
+				}
+				if f := selectorField(d.pkg, ix.Index); f == nil || f.Name() != "PrimaryPackagePurpose" {
+					return true
+				}
+				id, isId := ix.X.(*ast.Ident)
+				if !isId {
+					return true
+				}
+				pv, isVar := d.pkg.TypesInfo.Uses[id].(*types.Var)
+				if !isVar || pv.Pkg() == nil || pv.Parent() != pv.Pkg().Scope() {
+					return true
+				}
+				ev := &evaluator{p: c.P}
+				tab := ev.packageTable(pv)
+				if tab.k != vMap {
+					return true
+				}
+				for i, k := range tab.mkey {
+					if tab.list[i].k == vConst {
+						rrows = append(rrows, switchRow{keys: []value{k}, val: value{k: vList, list: []value{tab.list[i]}}, pos: ix.Pos()})
+						rpos = c.P.Pos(ix.Pos())
+					}
+				}
+				return true
+			})
+		}
+	}
 	if len(wrows) == 0 {
 		// … and so may the writer's: a converter sbom.Purpose → string whose result is stored into
 		// PrimaryPackagePurpose, folded on the constants of its own switch
